@@ -625,7 +625,63 @@ def rule_names_in_literals(ctx):
     ctx.floor("C02.h generated statements with string literals", n, 20)
 
 
+def rule_own_text_parsed(ctx):
+    """C02.i: the statement execute() rewrites and runs is the parse of *this call's* text as written — quoted identifiers and
+    string literals are case-sensitive, so a parse tree looked up under a case-folded (or otherwise normalised) form of the
+    command belongs to another statement. Decided on execute() interpreted up to the hand-over to the rewrite pipeline."""
+    from ..execmodel import FullHooks, make_session
+    from ..interp import explore
+    from .c05 import _prov_nodes
+
+    prog = ctx.prog
+    loc = "fakesnow/cursor.py"
+
+    class H(FullHooks):
+        def __init__(self):
+            super().__init__(None, "SELECT", undefined_var=False)
+            self.handed = []
+
+        def intercept(self, I, key, args, kwargs, site, f=None):
+            if key.endswith(("._transform_explode", "._transform")) and not self.handed:
+                self.handed.append(args[0] if args else None)
+                from ..values import Lst as _L
+                return _L([]) if key.endswith("_explode") else args[0]
+            return NotImplemented
+
+    hooks = []
+
+    def fac():
+        h = H()
+        hooks.append(h)
+        return h
+
+    def run(I):
+        duck, conn, cur = make_session()
+        return I.call(I.getattr(cur, "execute"), [Sym("COMMAND", typ="str", truthy=True), Const(None)], {}, None)
+
+    n = 0
+    for p, h in zip(explore(prog, fac, run, max_paths=64), hooks):
+        if not h.handed:
+            continue
+        n += 1
+        v = h.handed[0]
+        fresh = isinstance(v, NodeV) and (getattr(v, "parsed_from", None) is not None or h.parsed >= 1) and not (
+            isinstance(v, NodeV) and v.open and h.parsed == 0)
+        folded = [tagof(x)[:60] for x in _prov_nodes(v) if isinstance(x, Sym) and x.origin and x.origin[0] in ("upper", "lower", "casefold")
+                  or (isinstance(x, Sym) and x.origin and x.origin[0] == "method" and x.origin[2] in ("upper", "lower", "casefold", "strip", "split"))]
+        ok = h.parsed >= 1 and not folded
+        ctx.ob("C02.i", "the statement handed to the rewrite pipeline is this call's own parse", ok, loc,
+               "" if ok else f"parses in this call: {h.parsed}; statement `{tagof(v)[:60]}`")
+        if not ok:
+            ctx.violation("C02.i", "cursor", "FakeSnowflakeCursor.execute", "statement not parsed from this call's text", loc,
+                          f"on a path of execute() the statement handed to the rewrite pipeline is `{tagof(v)[:80]}` — "
+                          f"{'looked up under a normalised form of the command (' + folded[0] + ')' if folded else 'not the parse of the text passed to this call'}: "
+                          f"two commands that differ only in the case of a quoted identifier or a string literal are served the same parse tree")
+    ctx.floor("C02.i execute paths", n, 1)
+
+
 RULES = [
+    ("C02.i", rule_own_text_parsed, ("quick", "thorough")),
     ("C02.h", rule_names_in_literals, ("quick", "thorough")),
     ("C02.a", rule_fold_first, ("quick", "thorough")),
     ("C02.b", rule_fold_closure, ("quick", "thorough")),
